@@ -1,4 +1,4 @@
-"""Demonstrates the C16 signing findings with /repo's own functions only (on a tree BEFORE the fix: commits 76b1d46..5a36e22 it prints the
+"""Demonstrates the C16 signing findings with /repo's own functions only (on a tree BEFORE the fix: commits a6453f8..5c18f44 it prints the
 IndexError / invalid-signature lines; on the repaired tree every line reports OK / a transaction) (run: PYTHONPATH=/repo/src /venv/bin/python this_file).
 The node is a scripted scantxoutset result; keys are fixed."""
 import bits, bits.rpc, bits.tx, bits.keys, bits.crypto, bits.script
